@@ -199,7 +199,9 @@ func genAppOps(r *Rng, native, allowDup bool, n int) []appOp {
 			if allowDup && !native {
 				ops = append(ops, appOp{DBI: "dup", Flags: lmdb.DupSort, Key: pick(r, byteKeyPool[:4]), Val: pick(r, instVals), Del: r.Chance(15)})
 			} else {
-				ops = append(ops, appOp{DBI: "zz", Key: pick(r, byteKeyPool[:5]), Val: pick(r, instVals)})
+				// (an application DBI whose name merely CONTAINS "_sync" is an application DBI like any other: only the
+				// prefix is reserved)
+				ops = append(ops, appOp{DBI: pick(r, []string{"zz", "zz", "geo_sync_state"}), Key: pick(r, byteKeyPool[:5]), Val: pick(r, instVals)})
 			}
 		}
 	}
@@ -500,7 +502,7 @@ func areaInstance(r *Rng, n int, dir string) (*AreaOut, error) {
 		onlyPrivate := (fmtv == 0 || compat > 3) && r.Chance(35)
 		usedNames := map[string]bool{}
 		for j := 0; j < nd; j++ {
-			name := pick(r, []string{"app", "app", "ints", "dup", "new1", "_sync_meta", "zz"})
+			name := pick(r, []string{"app", "app", "ints", "dup", "new1", "_sync_meta", "zz", "geo_sync_state"})
 			if onlyPrivate {
 				// a snapshot of an unreadable version whose DBIs are all private (skipped by the merge loop before any
 				// per-DBI check): refused all the same
@@ -565,6 +567,11 @@ func areaInstance(r *Rng, n int, dir string) (*AreaOut, error) {
 			}
 			for _, k := range keys {
 				e := snapshot.KV{Key: k, TimestampNano: pick(r, []uint64{clock - 5000, clock - 1000, clock - 2000, clock + 500, 1, 0})}
+				if r.Chance(6) {
+					// versions stamped far ahead of this instance's clock (a writer whose clock is wrong, or a native
+					// application that chooses its own timestamps): ordered by their timestamps like any others
+					e.TimestampNano = clock + uint64(pick(r, []time.Duration{25 * time.Hour, 49 * time.Hour, 400 * 24 * time.Hour}))
+				}
 				if name == "dup" && !plainDup {
 					// value is the suffix stored in the hack key; keep consistent
 					dec, _ := syncer.VerifDupSortDecodeOne(snapshot.KV{Key: k})
